@@ -481,6 +481,14 @@ class Model:
             if fname in env:
                 raise IllFormed('call through a local name')
             return self.call_rule(fname, args, kwargs, pos, self.top)
+        if k == 'supercall':
+            # super.T(args): the template as seen from the parent of the grammar that contains the call
+            c.transitions += 1
+            if lvl == 0:
+                raise IllFormed('super in base grammar')
+            args = [self.argval(a, env, lvl) for a in e[2]]
+            kwargs = {kk: self.argval(a, env, lvl) for kk, a in e[3]}
+            return self.call_rule(e[1], args, kwargs, pos, lvl - 1)
         if k == 'optable':
             return self.ev_optable(e, pos, env, lvl, noskip)
         raise Exception('model: unknown node %r' % (k,))
